@@ -464,6 +464,58 @@ def cycle_catalogue():
     return None
 
 
+def include_order_catalogue(tier="quick"):
+    """Fortran INCLUDE cycles inside block scopes plus one file outside the cycle that includes a member of it:
+    every order of opening the files one at a time, and every enumeration order at start-up; the sync handlers are
+    called directly so that an exception is not swallowed by the notification path."""
+    import itertools
+    import os
+    from replay.harness import Workspace, make_server, parse_out
+    from fortls.jsonrpc import path_to_uri
+    from fortls.langserver import LangServer
+    n_run = 0
+    for n in ((2, 3, 4) if tier == "thorough" else (2, 3)):
+        files = {f"f{i}.f90": f"integer :: v{i}\nblock\n  include 'f{(i + 1) % n}.f90'\nend block\n" for i in range(n)}
+        files["main.f90"] = "program p\ninclude 'f0.f90'\nend program p\n"
+        for perm in itertools.permutations(sorted(files)):
+            for mode in ("open", "init"):
+                n_run += 1
+                ws = Workspace({})
+                try:
+                    srv, rw = make_server(["--recursion_limit", "400"])
+                    srv.nthreads = 1
+                    if mode == "open":
+                        os.makedirs(os.path.join(ws.root, "empty"))
+                        root = os.path.join(ws.root, "empty")
+                    else:
+                        root = ws.root
+                        for name in perm:
+                            ws.write(name, files[name])
+                        real = LangServer._get_source_files
+                        srv._get_source_files = (lambda self, real=real, perm=perm: sorted(
+                            real(self), key=lambda p_: perm.index(os.path.basename(p_)))).__get__(srv, LangServer)
+                    try:
+                        res = srv.serve_initialize({"jsonrpc": "2.0", "id": 0, "method": "initialize",
+                                                    "params": {"rootUri": path_to_uri(root), "rootPath": root}})
+                        if mode == "open":
+                            for name in perm:
+                                ws.write(name, files[name])
+                                srv.serve_onOpen({"jsonrpc": "2.0", "method": "textDocument/didOpen",
+                                                  "params": {"textDocument": {"uri": ws.uri(name)}}})
+                        for name in perm:
+                            srv.serve_hover({"jsonrpc": "2.0", "id": 1, "method": "textDocument/hover",
+                                             "params": {"textDocument": {"uri": ws.uri(name)}, "position": {"line": 0, "character": 12}}})
+                    except RecursionError as e:
+                        return {"files": files, "mode": "opened one at a time" if mode == "open" else "enumerated at start-up",
+                                "order": list(perm), "problem": f"RecursionError: {str(e)[:80]}"}, n_run
+                    msgs = [m for m in parse_out(rw.out) if m.get("method") == "window/showMessage" and "recursion" in str(m).lower()]
+                    if msgs:
+                        return {"files": files, "mode": mode, "order": list(perm), "message": str(msgs[0])[:300]}, n_run
+                finally:
+                    ws.close()
+    return None, n_run
+
+
 def extra(repo, reg, tier, seed):
     eff = Effects(repo)
     items, comps = cycle_items(eff, repo)
@@ -522,6 +574,12 @@ def extra(repo, reg, tier, seed):
                            f"add_child/set_parent: {sorted(set(short(a) for a in adopters))}",
                            witness={"unreviewed": extra_ad}))
     w = cycle_catalogue()
+    w2, n2 = include_order_catalogue(tier)
+    items.append(Item("C20/session/native_include_orders", "refuted" if w2 else "bounded-ok", "native-run(bounded)", 0.0,
+                      mode="bounded", witness=w2, confirmed=True if w2 else None, func="fortls.parsers.internal.ast.FortranAST.resolve_includes",
+                      detail=f"bounded: {n2} schedules: INCLUDE cycles of 2-{'4' if tier == 'thorough' else '3'} files inside block scopes "
+                             "plus an outside includer, every opening order and every start-up enumeration order, handlers called directly"))
+    items[-1].count = n2
     items.append(Item("C20/session/native_cycle_catalogue", "refuted" if w else "bounded-ok", "native-run(bounded)",
                       0.0, mode="bounded", witness=w, confirmed=True if w else None,
                       detail="bounded: USE/EXTENDS/pointer/submodule/binding/ASSOCIATE/INCLUDE cycles of length 1..4, "
